@@ -77,6 +77,12 @@ CHECKS = {
    text="All rules of create_rewrites(), every width parameter 1..=4 (5 thorough) exhaustively, both signs, plus sampled larger widths; per instance three unsat queries (lhs==rhs, from_arith(lhs)==meaning(lhs), from_arith(rhs)==meaning(rhs)). Conversion: seeded expressions of the convertible fragment, from_arith(to_arith(e)) has the same width and is solver-proved equivalent.",
    design_ref="DESIGN.md section 4 C19",
    note="Trusted: RefSmt, solvers, the harness's reading of the Arith language (extend by sign to max width, apply, truncate). Instances no solver decides are listed, not counted."),
+ "C20": dict(
+   technique="SMT validation of value summaries: after every operation of a generated history the entries (guard BDD exported as a Boolean expression, value) are read through the cfg(patronus_verif) accessors; the solver proves that the guards are a partition and that, under every valuation of the guard terminals and value symbols, the selected entry's value equals the operation applied to the arguments' denotations; expr_to_guard is proved equivalent to its expression",
+   category="translation_validation",
+   text="Histories: all single operations over 16 Boolean and 5 value leaves, structured depth-2 combinations (ite/import summaries sharing, not sharing and complementing conditions) and seeded deeper trees of new/apply_bin_op/apply_ite/coalesce/import_into_guard. Three kinds of unsat obligations per node: partition, denotation, guard conversion. Terminals include expressions with non-Boolean operands, linked to their meaning in the query.",
+   design_ref="DESIGN.md section 4 C20",
+   note="Trusted: BDD::to_expr of the boolean_expression crate (the hook only reads), RefSmt, solver. Three genuine defects of the pinned tree were repaired (fix: ebac2c2, 80a1d6c, 8b04705)."),
 }
 ALL = [f"C{i:02d}" for i in range(1, 21)]
 m = {
@@ -86,7 +92,7 @@ m = {
    "guard": "patronus_verif",
    "enable": "RUSTFLAGS=\"--cfg patronus_verif\" (set by ./check for the harness build; cargo passes it to the patronus crates built as path dependencies)",
    "baseline_off_cmd": "cd /repo && cargo nextest run --workspace --no-fail-fast --offline --test-threads 8 || cargo test --workspace --no-fail-fast --offline",
-   "source_commits": [],
+   "source_commits": ["45229b0"],
    "add_only": True,
  },
  "engines": [
